@@ -359,11 +359,11 @@ func (s *Store) Close() error {
 	if err != nil {
 		cerr = err
 	}
-	vhook.At("store.close.after-index")
+	vhook.At("store.close.after-primary")
 	if err = s.index.Close(); err != nil {
 		cerr = err
 	}
-	vhook.At("store.close.after-primary")
+	vhook.At("store.close.after-index")
 	s.fileCache.Clear()
 	if err = s.freelist.Close(); err != nil {
 		cerr = err
